@@ -196,4 +196,23 @@ theorem expr_derivative_foreign (vs : List α) (hnd : vs.Nodup) (e : Expr α) (x
   have : x ≠ y := fun h => hf (h ▸ hy)
   simp [upd, this]
 
+
+/-! ### the derivative is linear over exclusive-or and blind to negation (single variable) -/
+theorem derivative_xor_expr (x : α) (a b : Expr α) (ρ : α → Bool) :
+    ((Expr.mkXor a b).derivative [x]).den ρ = ((a.derivative [x]).den ρ != (b.derivative [x]).den ρ) := by
+  rw [single_flip_expr, single_flip_expr, single_flip_expr, Expr.den_mkXor, Expr.den_mkXor]
+  cases a.den (upd ρ x false) <;> cases a.den (upd ρ x true) <;>
+    cases b.den (upd ρ x false) <;> cases b.den (upd ρ x true) <;> rfl
+theorem derivative_not_expr (x : α) (a : Expr α) (ρ : α → Bool) :
+    ((Expr.not a).derivative [x]).den ρ = (a.derivative [x]).den ρ := by
+  rw [single_flip_expr, single_flip_expr]
+  simp only [Expr.den]
+  cases a.den (upd ρ x false) <;> cases a.den (upd ρ x true) <;> rfl
+/-- a second derivative by the same variable vanishes -/
+theorem derivative_twice_expr (x : α) (e : Expr α) (ρ : α → Bool) :
+    ((e.derivative [x]).derivative [x]).den ρ = false := by
+  apply nonessential_false_expr
+  intro σ
+  rw [single_flip_expr, single_flip_expr, upd_same, upd_same, upd_same, upd_same]
+
 end BoolFn.C07
